@@ -52,6 +52,9 @@ CUSTOM_POOL = [None, {}, {':--x': 'a'}, {':--x': 'b'}, {':--x': 'a', ':--y': 'b'
                # two spellings of one name (equal after un-escaping), in both insertion orders: whatever compile does with
                # such a map (the documented KeyError), it must do for either order and with or without a cache hit
                {':--x': 'p', ':--\\78': 'div'}, {':--\\78': 'div', ':--x': 'p'},
+               # definitions compile() refuses with NotImplementedError (pseudo-element, at-rule): a failed call must leave
+               # nothing behind for the calls after it
+               {':--x': 'p::first-line'}, {':--x': 'a', ':--y': '@media print'},
                {':--x': 'p', ':--\\58 ': 'div'}, {':--\\58 ': 'div', ':--x': 'p'}]
 PATTERNS = ['p', 'p ', 'P', 'a > b', 'a>b', ':is(a, b)', ':is(b, a)', 'svg|circle', '*|circle', 'a:--x', 'a:--y', ':--y',
             ':nth-child(2n+1)', ':nth-child(odd)', '[type="a"]', "[type='a']", '[type=a i]', ':lang(en)', ':lang("en")',
@@ -112,7 +115,7 @@ def outcome(key):
     """('ok', compiled) or ('raise', exception type name) for the two documented errors of compile()."""
     try:
         return ('ok', do_compile(key))
-    except (KeyError, sv.SelectorSyntaxError) as e:
+    except (KeyError, sv.SelectorSyntaxError, NotImplementedError) as e:
         return ('raise', type(e).__name__)
 
 
